@@ -12,8 +12,13 @@ from absexec import Exec
 from mir import Body, strip_generics
 
 # obligations discharged by a recorded argument outside the abstract domain: (kind, function, detail) -> argument
+def shape(detail):
+    """operand names erased: the recorded argument is about the operation, not about how locals are called"""
+    return re.sub(r'\b[a-z_][A-Za-z0-9_.]*\b', '_', detail)
+
+
 ABSINT_MANUAL = {
-    ('overflow', '<methods::lin_reg::LinReg as core::method::Method>::new', 'Sub(Mul(l64, s_x2), Mul(s_x, s_x))'):
+    ('overflow', '<methods::lin_reg::LinReg as core::method::Method>::new', 'Sub(Mul(_, _), Mul(_, _))'):
         'n*sum(i^2) - (sum i)^2 = n^2 (n^2-1)/12 >= 0 for the sums over 0..n-1 (Cauchy-Schwarz); interval arithmetic cannot relate the two products',
 }
 
@@ -163,7 +168,7 @@ def report(r, label, ex, documented=None):
         if key in seen:
             continue
         seen.add(key)
-        mk = (ob.kind, ob.fn, ob.detail)
+        mk = (ob.kind, ob.fn, shape(ob.detail))
         if mk in ABSINT_MANUAL:
             nman += 1
             continue
